@@ -539,7 +539,7 @@ Proof.
   match goal with |- context [match ?X with pair _ _ => _ end] => destruct X as [[outs ids] fr] end.
   cbn [fst]. apply SigInv_eq; cbn [remove_node map_graphs m_main set_nodes g_ins g_inits]; apply fold_replace_main.
 Qed.
-Lemma cse_loop_sig sl : forall keys seen m fresh, SigInv m (fst (cse_loop sl keys seen m fresh)).
+Lemma cse_loop_sig u sl : forall keys seen m fresh, SigInv m (fst (cse_loop u sl keys seen m fresh)).
 Proof.
   induction keys as [|k rest IH]; intros seen m fresh; simpl; [apply SigInv_refl|].
   destruct (find (has_key k) (g_nodes (m_main m))) as [n|]; [|apply IH].
@@ -549,10 +549,10 @@ Proof.
   destruct (cse_replace m n keep fresh) as [m' fr] eqn:E.
   eapply SigInv_trans; [|apply IH]. change m' with (fst (m', fr)). rewrite <- E. apply cse_replace_sig.
 Qed.
-Lemma cse_SigInv sl m fresh : SigInv m (fst (cse sl m fresh)).
+Lemma cse_SigInv u sl m fresh : SigInv m (fst (cse u sl m fresh)).
 Proof. unfold cse. apply cse_loop_sig. Qed.
-Theorem cse_signature sl m fresh :
-  g_ins (m_main (fst (cse sl m fresh))) = g_ins (m_main m) /\ noninit_inputs (fst (cse sl m fresh)) = noninit_inputs m.
+Theorem cse_signature u sl m fresh :
+  g_ins (m_main (fst (cse u sl m fresh))) = g_ins (m_main m) /\ noninit_inputs (fst (cse u sl m fresh)) = noninit_inputs m.
 Proof. apply SigInv_sig. apply cse_SigInv. Qed.
 
 (* ---------------------------------------------------------------- LiftConstantsToInitializersPass *)
